@@ -216,6 +216,24 @@ def harnesses(tier, seed):
                         judge(ctx, check_roundtrip, {"x": x, "y": list(y), "strategy": st, "n": n, "p": RC.pkey(p),
                                                      "rule": rule, "append": True}, calls=3, bulk=True, nontrivial=lambda s: s[-1])
 
+    # oversampled lengths that cross powers of two and every integer constant of the numeric code: (m, n) with
+    # (m-1)*n+1 just above the threshold
+    thresholds = sorted(set([64, 128, 256, 512, 1024] + [c for c in A.code_constants(lo=16, hi=(2100 if quick else 70000), exclude="datasets")]))
+    size_pairs = sorted({(c // n + 2, n) for c in thresholds for n in (2, 7, 18, 40) if c // n + 2 >= 3}
+                        | {(2 * c // n + 2, n) for c in thresholds for n in (7, 18) if c <= 1100})
+
+    def sizes_body(ctx):
+        m, n = ctx.choose(size_pairs, "m,n")
+        st = ctx.choose(RC.STRATS, "strategy")
+        pat = ctx.choose(2, "xpattern")
+        x = [[float(i) for i in range(m)], [0.5 * i + (i % 3) * 0.125 for i in range(m)]][pat]
+        y = [float((3 * i) % 7 - 2) + 0.25 * (i % 2) for i in range(m)]
+        for p in psets(st, n)[:1]:
+            for rule in ("trapezoid", "rectangle"):
+                for app in ("none", True):
+                    judge(ctx, check_roundtrip, {"x": x, "y": y, "strategy": st, "n": n, "p": RC.pkey(p), "rule": rule, "append": app},
+                          calls=3, bulk=True, nontrivial=lambda s_: s_[-1])
+
     def data_body(ctx):
         d = ctx.choose(DATASETS, "dataset")
         st = ctx.choose(RC.STRATS, "strategy")
@@ -236,4 +254,6 @@ def harnesses(tier, seed):
                   nontrivial=lambda sg: sg[0] not in ("skipped", "not-admissible"))
 
     return [{"name": "match-in-every-state", "body": match_hist_body}, {"name": "small-series", "body": body}, {"name": "structured-long", "body": long_body},
+            {"name": "oversampled-length-across-thresholds", "body": sizes_body,
+             "bound_text": "(m, n) with (m-1)*n+1 just above %s" % thresholds},
             {"name": "bundled-datasets", "body": data_body}]
